@@ -186,7 +186,13 @@ func runLocksetX(w *World, r *Report, rule string, guards []*guardSpec, extra fu
 		}
 		lf := g.Lock[strings.LastIndex(g.Lock, ".")+1:]
 		if !have[lf] {
-			undecided("%s: lock field %s not found", rule, g.Lock)
+			// an embedded sync.Mutex that became a sync.RWMutex (or the reverse) keeps guarding the same fields
+			alt := map[string]string{"Mutex": "RWMutex", "RWMutex": "Mutex"}[lf]
+			if alt != "" && have[alt] {
+				g.Lock = g.Lock[:strings.LastIndex(g.Lock, ".")+1] + alt
+			} else {
+				undecided("%s: lock field %s not found", rule, g.Lock)
+			}
 		}
 	}
 	e := newLocksetEngine(w, guards)
